@@ -311,4 +311,153 @@ def gen_schema(srcdir, problems):
     return "".join(out), [{"name": "schema", "ok": True}]
 
 
-FACT_GENERATORS = [("Retry.v", gen_retry), ("Persist.v", gen_persist), ("Schema.v", gen_schema)]
+
+# ---------------------------------------------------------------------------------------------- C12
+ESTIMATE_PATH_FILES = [
+    "elexmodel/client.py", "elexmodel/handlers/config.py", "elexmodel/handlers/data/PreprocessedData.py", "elexmodel/handlers/data/Estimandizer.py",
+    "elexmodel/handlers/data/Featurizer.py", "elexmodel/handlers/data/CombinedData.py", "elexmodel/handlers/data/VersionedData.py",
+    "elexmodel/handlers/data/ModelResults.py", "elexmodel/distributions/GaussianModel.py", "elexmodel/models/BaseElectionModel.py",
+    "elexmodel/models/ConformalElectionModel.py", "elexmodel/models/NonparametricElectionModel.py", "elexmodel/models/GaussianElectionModel.py",
+    "elexmodel/models/BootstrapElectionModel.py", "elexmodel/utils/math_utils.py", "elexmodel/utils/pandas_utils.py",
+]
+SEED_WORDS = ("self.seed", "self.rng")
+
+
+def mentions_seed(txt):
+    return any(w in txt for w in SEED_WORDS)
+
+
+def gen_effects(srcdir, problems):
+    sites = []          # (file, line, kind, seeded)
+    pending = []        # (file, line, kind, function name, parameter) : seeded iff every caller passes the parameter seeded
+    funcs = {}          # function name -> list of call nodes (with their file / source) across the estimate path
+    parsed = {}
+    for rel in ESTIMATE_PATH_FILES:
+        f = os.path.join(srcdir, rel)
+        src, tree = parse(f)
+        parsed[rel] = (src, tree)
+    # index calls by callee's last name
+    for rel, (src, tree) in parsed.items():
+        for n in ast.walk(tree):
+            if isinstance(n, ast.Call):
+                p = attr_path(n.func) or ""
+                funcs.setdefault(p.split(".")[-1], []).append((rel, src, n))
+    for rel, (src, tree) in parsed.items():
+        short = rel.split("/")[-1]
+        parents = {}
+        for node in ast.walk(tree):
+            for ch in ast.iter_child_nodes(node):
+                parents[ch] = node
+
+        def enclosing_function(n):
+            while n in parents:
+                n = parents[n]
+                if isinstance(n, (ast.FunctionDef, ast.AsyncFunctionDef)):
+                    return n
+            return None
+
+        for n in ast.walk(tree):
+            if not isinstance(n, ast.Call):
+                continue
+            p = attr_path(n.func) or ""
+            kws = {k.arg: " ".join(ast.get_source_segment(src, k.value).split()) for k in n.keywords if k.arg}
+            argtxt = " ".join(" ".join(ast.get_source_segment(src, a).split()) for a in n.args) + " " + " ".join(kws.values())
+            kind = None
+            seeded = None
+            last = p.split(".")[-1]
+            if p.startswith("np.random.") or p.startswith("numpy.random."):
+                if last in ("default_rng", "Generator", "RandomState", "SeedSequence"):
+                    kind, seeded = "new-generator", mentions_seed(argtxt)
+                else:
+                    kind, seeded = "global-numpy-generator", False
+            elif p.startswith("self.rng."):
+                kind, seeded = "seeded-generator-method", True
+            elif p.startswith("random.") and last in ("random", "randint", "choice", "shuffle", "sample", "uniform", "gauss", "seed"):
+                kind, seeded = "global-python-generator", False
+            elif last == "sample" and ("frac" in kws or "n" in kws or "random_state" in kws):
+                kind, seeded = "DataFrame.sample", mentions_seed(kws.get("random_state", ""))
+            elif last == "shuffle":
+                kind, seeded = "shuffle", mentions_seed(p)
+            elif last == "bootstrap" and p in ("bootstrap", "stats.bootstrap", "scipy.stats.bootstrap"):
+                kind = "scipy.stats.bootstrap"
+                rs = kws.get("random_state", "")
+                if mentions_seed(rs):
+                    seeded = True
+                elif rs:
+                    fn = enclosing_function(n)
+                    params = [a.arg for a in fn.args.args] if fn is not None else []
+                    if rs in params:
+                        pending.append((short, n.lineno, kind, fn.name, rs))
+                        continue
+                    seeded = False
+                else:
+                    seeded = False
+            if kind is not None:
+                sites.append((short, n.lineno, kind, bool(seeded)))
+    for short, line, kind, fname, param in pending:
+        callers = funcs.get(fname, [])
+        ok_all = bool(callers)
+        for rel, src, call in callers:
+            kws = {k.arg: " ".join(ast.get_source_segment(src, k.value).split()) for k in call.keywords if k.arg}
+            if not mentions_seed(kws.get(param, "")):
+                ok_all = False
+        sites.append((short, line, kind + f" (through parameter {param} of {fname}, {len(callers)} call sites)", ok_all))
+    sites.sort()
+    # attribute reads before writes in the two client entry points
+    src, tree = parsed["elexmodel/client.py"]
+    rbw = {}
+    for fname in ("get_estimates", "get_national_summary_votes_estimates"):
+        fn = find_func(tree, "ModelClient", fname)
+        if fn is None:
+            raise Untranslatable(f"UNTRANSLATABLE client.py: {fname} not found")
+        events = []
+        item_containers = set()
+        for n in ast.walk(fn):
+            if isinstance(n, ast.Subscript) and isinstance(n.ctx, ast.Store):
+                b = n.value
+                while isinstance(b, ast.Subscript):
+                    b = b.value
+                if isinstance(b, ast.Attribute) and isinstance(b.value, ast.Name) and b.value.id == "self":
+                    item_containers.add((b.lineno, b.col_offset))
+        for n in ast.walk(fn):
+            if isinstance(n, ast.Attribute) and isinstance(n.value, ast.Name) and n.value.id == "self":
+                if isinstance(n.ctx, ast.Store):
+                    events.append((n.lineno, 0, "w", n.attr))
+                elif (n.lineno, n.col_offset) in item_containers:
+                    continue
+                else:
+                    # method calls on self are not state reads
+                    par_is_call = False
+                    events.append((n.lineno, 1, "r", n.attr))
+        # drop reads that are the callee of a call:  self.method(...)
+        callees = set()
+        for n in ast.walk(fn):
+            if isinstance(n, ast.Call) and isinstance(n.func, ast.Attribute) and isinstance(n.func.value, ast.Name) and n.func.value.id == "self":
+                callees.add((n.func.lineno, n.func.attr))
+        written = set()
+        reads = []
+        for line, _, k, a in sorted(events):
+            if k == "w":
+                written.add(a)
+            elif (line, a) in callees:
+                continue
+            elif a not in written and a not in reads:
+                reads.append(a)
+        rbw[fname] = reads
+    # a fresh model object per get_estimates call: assignments to self.model inside get_estimates are constructor calls
+    fn = find_func(tree, "ModelClient", "get_estimates")
+    fresh = []
+    for n in ast.walk(fn):
+        if isinstance(n, ast.Assign) and len(n.targets) == 1 and isinstance(n.targets[0], ast.Attribute) and n.targets[0].attr == "model" \
+                and isinstance(n.targets[0].value, ast.Name) and n.targets[0].value.id == "self":
+            fresh.append(isinstance(n.value, ast.Call) and (attr_path(n.value.func) or "").endswith("ElectionModel"))
+    out = [HEADER, STR_HDR]
+    out.append("Definition rng_sites : list (string * nat * string * bool) := "
+               + clist([f"({cstr(a)}, {b}%nat, {cstr(c)}, {'true' if d else 'false'})" for a, b, c, d in sites]) + ".\n")
+    out.append(f"Definition reads_before_write_get_estimates : list string := {clist([cstr(x) for x in rbw['get_estimates']])}.\n")
+    out.append(f"Definition reads_before_write_national_summary : list string := {clist([cstr(x) for x in rbw['get_national_summary_votes_estimates']])}.\n")
+    out.append(f"Definition model_assignments_are_fresh_objects : list bool := {clist(['true' if x else 'false' for x in fresh])}.\n")
+    return "".join(out), [{"name": "effects", "ok": True, "sites": len(sites)}]
+
+
+FACT_GENERATORS = [("Retry.v", gen_retry), ("Persist.v", gen_persist), ("Schema.v", gen_schema), ("Effects.v", gen_effects)]
